@@ -53,10 +53,10 @@ package compound
 // what each New* function returns, read off its literal: fresh, pairwise separate sub-objects, fields equal to the
 // arguments / constants they are initialised with (transitively through nested constructors); proved, not assumed
 //@ func NewMacdRsiStrategy
-//@ ensures[C06] "fresh-and-separate-objects" fresh(result) && fresh(result.MacdStrategy) && fresh(result.MacdStrategy.Macd) && fresh(result.MacdStrategy.Macd.Ema1) && fresh(result.MacdStrategy.Macd.Ema2) && fresh(result.MacdStrategy.Macd.Ema3) && fresh(result.RsiStrategy) && fresh(result.RsiStrategy.Rsi) && fresh(result.RsiStrategy.Rsi.Rma) && distinct(result.MacdStrategy.Macd.Ema1, result.MacdStrategy.Macd.Ema2, result.MacdStrategy.Macd.Ema3)
-//@ ensures[C06] "configured-as-given" result.MacdStrategy.Macd.Ema1.Period == 12 && result.MacdStrategy.Macd.Ema1.Smoothing == 2 && result.MacdStrategy.Macd.Ema2.Period == 26 && result.MacdStrategy.Macd.Ema2.Smoothing == 2 && result.MacdStrategy.Macd.Ema3.Period == 9 && result.MacdStrategy.Macd.Ema3.Smoothing == 2 && result.RsiStrategy.BuyAt == 30 && result.RsiStrategy.Rsi.Rma.Period == 14 && result.RsiStrategy.SellAt == 70
+//@ ensures[C04,C05,C06,C14] "fresh-and-separate-objects" fresh(result) && fresh(result.MacdStrategy) && fresh(result.MacdStrategy.Macd) && fresh(result.MacdStrategy.Macd.Ema1) && fresh(result.MacdStrategy.Macd.Ema2) && fresh(result.MacdStrategy.Macd.Ema3) && fresh(result.RsiStrategy) && fresh(result.RsiStrategy.Rsi) && fresh(result.RsiStrategy.Rsi.Rma) && distinct(result.MacdStrategy.Macd.Ema1, result.MacdStrategy.Macd.Ema2, result.MacdStrategy.Macd.Ema3)
+//@ ensures[C04,C05,C06,C14] "configured-as-given" result.MacdStrategy.Macd.Ema1.Period == 12 && result.MacdStrategy.Macd.Ema1.Smoothing == 2 && result.MacdStrategy.Macd.Ema2.Period == 26 && result.MacdStrategy.Macd.Ema2.Smoothing == 2 && result.MacdStrategy.Macd.Ema3.Period == 9 && result.MacdStrategy.Macd.Ema3.Smoothing == 2 && result.RsiStrategy.BuyAt == 30 && result.RsiStrategy.Rsi.Rma.Period == 14 && result.RsiStrategy.SellAt == 70
 
 //@ func NewMacdRsiStrategyWith
-//@ ensures[C06] "fresh-and-separate-objects" fresh(result) && fresh(result.MacdStrategy) && fresh(result.MacdStrategy.Macd) && fresh(result.MacdStrategy.Macd.Ema1) && fresh(result.MacdStrategy.Macd.Ema2) && fresh(result.MacdStrategy.Macd.Ema3) && fresh(result.RsiStrategy) && fresh(result.RsiStrategy.Rsi) && fresh(result.RsiStrategy.Rsi.Rma) && distinct(result.MacdStrategy.Macd.Ema1, result.MacdStrategy.Macd.Ema2, result.MacdStrategy.Macd.Ema3)
-//@ ensures[C06] "configured-as-given" result.MacdStrategy.Macd.Ema1.Period == 12 && result.MacdStrategy.Macd.Ema1.Smoothing == 2 && result.MacdStrategy.Macd.Ema2.Period == 26 && result.MacdStrategy.Macd.Ema2.Smoothing == 2 && result.MacdStrategy.Macd.Ema3.Period == 9 && result.MacdStrategy.Macd.Ema3.Smoothing == 2 && result.RsiStrategy.BuyAt == buyAt && result.RsiStrategy.Rsi.Rma.Period == 14 && result.RsiStrategy.SellAt == sellAt
+//@ ensures[C04,C05,C06,C14] "fresh-and-separate-objects" fresh(result) && fresh(result.MacdStrategy) && fresh(result.MacdStrategy.Macd) && fresh(result.MacdStrategy.Macd.Ema1) && fresh(result.MacdStrategy.Macd.Ema2) && fresh(result.MacdStrategy.Macd.Ema3) && fresh(result.RsiStrategy) && fresh(result.RsiStrategy.Rsi) && fresh(result.RsiStrategy.Rsi.Rma) && distinct(result.MacdStrategy.Macd.Ema1, result.MacdStrategy.Macd.Ema2, result.MacdStrategy.Macd.Ema3)
+//@ ensures[C04,C05,C06,C14] "configured-as-given" result.MacdStrategy.Macd.Ema1.Period == 12 && result.MacdStrategy.Macd.Ema1.Smoothing == 2 && result.MacdStrategy.Macd.Ema2.Period == 26 && result.MacdStrategy.Macd.Ema2.Smoothing == 2 && result.MacdStrategy.Macd.Ema3.Period == 9 && result.MacdStrategy.Macd.Ema3.Smoothing == 2 && result.RsiStrategy.BuyAt == buyAt && result.RsiStrategy.Rsi.Rma.Period == 14 && result.RsiStrategy.SellAt == sellAt
 // ---- end of generated constructor contracts ----
